@@ -49,15 +49,6 @@ Definition cms_step (st : list (option cms)) (op : tok) : list (option cms) * to
   | _ => (st, T_INVALID)
   end.
 
-Fixpoint cms_run (st : list (option cms)) (ops : list tok) : list tok :=
-  match ops with
-  | [] => []
-  | op :: t => let r := cms_step st op in snd r :: cms_run (fst r) t
-  end.
 End Run.
 
-Definition run_cms_case (c : list tok) : tok :=
-  match c with
-  | [orc; ops] => TL (cms_run (tok_oracle orc) [] (tok_L ops))
-  | _ => T_INVALID
-  end.
+
